@@ -43,7 +43,7 @@ def generate(seed, tier="quick"):
     if driver != "plugin":
         prof.special = [s for s in prof.special if s != "norepr"]
     prog = W.gen_program(rng, prof, {"prev": ["none", "same", "other", "edit", "edit", "slack", "wrong", "subset", "superset"], "n_files": (1, 3), "n_sites": (1, 4),
-                                     "n_tests": (1, 3), "styles": ["assert", "rec"], "hand": 0.6, "layout": False})
+                                     "n_tests": (1, 3), "styles": ["assert", "rec"], "hand": 0.6, "layout": False, "idle": 0.15})
     lr = sub(seed, "layout")
     n = 0
     for f in prog["files"]:
@@ -77,8 +77,9 @@ def is_clean(text):
 
 def strip_imports(new_text, old_text):
     for imp in IMPORTS:
-        if imp in new_text and imp not in old_text:
-            new_text = new_text.replace(imp, "", 1)
+        for variant in (imp, imp.replace("\n", "\r\n")):
+            if variant in new_text and variant not in old_text:
+                new_text = new_text.replace(variant, "", 1)
     return new_text
 
 
@@ -154,8 +155,12 @@ def execute(case, ctx):
                                                    f"--- before (masked)\n{a[max(0, pos - 200): pos + 200]!r}\n--- after (masked)\n{b[max(0, pos - 200): pos + 200]!r}")
             else:
                 try:
-                    da = ast.dump(ast.parse(mo.decode("utf-8")))
-                    db = ast.dump(ast.parse(mn.decode("utf-8")))
+                    ta, tb = ast.parse(mo.decode("utf-8")), ast.parse(mn.decode("utf-8"))
+                    # the inserted import may have been re-laid-out by the formatter: drop it at tree level
+                    had = {ast.dump(n) for n in ta.body if isinstance(n, ast.ImportFrom)}
+                    tb.body = [n for n in tb.body if not (isinstance(n, ast.ImportFrom) and n.module == "inline_snapshot" and ast.dump(n) not in had
+                                                          and {a.name for a in n.names} <= {"external", "HasRepr"})]
+                    da, db = ast.dump(ta), ast.dump(tb)
                 except SyntaxError as ex:
                     viol("valid-python", "masked-file-does-not-parse", f"{fn}: {ex}")
                     continue
